@@ -223,9 +223,10 @@ SPECS["C04"] = {
     "explanation": "AGGREGATOR: the real NewMetricAggregator / ReceiveMap / Flush / Reset / Flush (so the flush of a persisted idle series is included) on a timer with n "
                    "symbolic values, one symbolic integer percentile in [-100,100] (both signs), symbolic sub-metric switches; histogram-tagged timers with symbolic "
                    "(parsable or malformed) bucket items and limits 0/1/2/max are covered by the C08 histogram entries that run here as well. BACKENDS: each bundled "
-                   "backend's payload builder is fed the map the real Flush produced. The only obligations are Go's own: no index/slice/nil/divide/type-assertion "
+                   "backend's payload builder (influxdb processMetrics/flush.add*, otlp SendMetricsAsync incl. data.* constructors and request construction, datadog, newrelic (3 flush types), "
+                   "graphite preparePayload, statsdaemon processMetrics, stdout, cloudwatch buildMetricData) is fed the maps the real aggregator produced over a flush / reset / idle-flush history. The only obligations are Go's own: no index/slice/nil/divide/type-assertion "
                    "panic and no explicit panic on any path.",
-    "bounds": {"quick": "aggregator: n = 0..4 values; backends: see entries", "thorough": "aggregator: n = 0..6"},
+    "bounds": {"quick": "aggregator: n = 0..4 symbolic values, every integer percentile in [-100,100]; backends: six aggregate shapes (percentile +90 / -90 / -100 and 50, histogram with limit 2, histogram with limit 0, malformed bucket list) x {first flush, idle second flush} x {all sub-metrics, none} x {with, without source}, produced by the real aggregator, symbolic batch sizes (influx 1..3, datadog/newrelic 1..40, otlp 1..3), OTLP AsGauge/AsHistogram, Graphite legacy/basic/tags, New Relic insights/infra/metrics, relay packet size 1..64 and tags on/off", "thorough": "same"},
     "outside": ["JSON / protobuf / gzip encoding of the built payloads, the AWS SDK, HTTP transport", "more than one percentile per run"],
     "assumptions": STUBS_COMMON + [MATH_NOTE, PF_STUB, TIME_MODEL, "fmt.Sprintf/Fprintf and strconv.FormatFloat return opaque non-empty strings"],
     "jobs": [
@@ -236,6 +237,30 @@ SPECS["C04"] = {
          "limits": {"quick": {"timeout": "600s"}, "thorough": {"timeout": "1800s"}}},
         {"pkg": "./pkg/statsd", "harness": "pkg/statsd", "mode": "machine",
          "entries": {"quick": ["VerifC08_Hist_1_1_1", "VerifC08_Hist_2_1_2", "VerifC08_Hist_2_1_2L1", "VerifC08_Hist_L0"]},
+         "limits": {"quick": {"timeout": "600s"}}},
+        {"pkg": "./pkg/backends/influxdb", "harness": "pkg/backends/influxdb", "mode": "machine", "workers": 8,
+         "entries": {"quick": ["VerifC04_Influx"]}, "reach": {"*": ["flushed", "flushed-idle"]},
+         "limits": {"quick": {"timeout": "600s"}}},
+        {"pkg": "./pkg/backends/otlp", "harness": "pkg/backends/otlp", "mode": "machine", "workers": 8,
+         "entries": {"quick": ["VerifC04_OTLP"]}, "reach": {"*": ["flushed", "flushed-idle"]},
+         "limits": {"quick": {"timeout": "600s"}}},
+        {"pkg": "./pkg/backends/datadog", "harness": "pkg/backends/datadog", "mode": "machine", "workers": 8,
+         "entries": {"quick": ["VerifC04_Datadog"]}, "reach": {"*": ["flushed", "flushed-idle"]},
+         "limits": {"quick": {"timeout": "600s"}}},
+        {"pkg": "./pkg/backends/newrelic", "harness": "pkg/backends/newrelic", "mode": "machine", "workers": 8,
+         "entries": {"quick": ["VerifC04_NewRelic"]}, "reach": {"*": ["flushed", "flushed-idle"]},
+         "limits": {"quick": {"timeout": "600s"}}},
+        {"pkg": "./pkg/backends/graphite", "harness": "pkg/backends/graphite", "mode": "machine", "workers": 8,
+         "entries": {"quick": ["VerifC04_Graphite"]}, "reach": {"*": ["flushed", "flushed-idle"]},
+         "limits": {"quick": {"timeout": "600s"}}},
+        {"pkg": "./pkg/backends/statsdaemon", "harness": "pkg/backends/statsdaemon", "mode": "machine", "workers": 8,
+         "entries": {"quick": ["VerifC04_StatsDaemon"]}, "reach": {"*": ["flushed", "flushed-idle"]},
+         "limits": {"quick": {"timeout": "600s"}}},
+        {"pkg": "./pkg/backends/stdout", "harness": "pkg/backends/stdout", "mode": "machine", "workers": 8,
+         "entries": {"quick": ["VerifC04_Stdout"]}, "reach": {"*": ["flushed", "flushed-idle"]},
+         "limits": {"quick": {"timeout": "600s"}}},
+        {"pkg": "./pkg/backends/cloudwatch", "harness": "pkg/backends/cloudwatch", "mode": "machine", "workers": 8,
+         "entries": {"quick": ["VerifC04_Cloudwatch"]}, "reach": {"*": ["flushed", "flushed-idle"]},
          "limits": {"quick": {"timeout": "600s"}}},
     ],
 }
